@@ -362,6 +362,8 @@ static int ex_region(char *loc, int *beg, int *end)
 		return 1;
 	if (*end < *beg || *end > lbuf_len(xb))
 		return 1;
+	if (*end == *beg && *end)	/* 5,4: backwards by one line */
+		return 1;
 	return 0;
 }
 
@@ -753,6 +755,8 @@ static int ec_put(char *loc, char *cmd, char *arg, char *txt)
 		return 1;
 	lbuf_edit(xb, buf, end, end);
 	xrow = MIN(lbuf_len(xb) - 1, end + lbuf_len(xb) - n - 1);
+	if (!lbuf_len(xb))
+		xrow = 0;
 	return 0;
 }
 
